@@ -4,6 +4,7 @@
   stateful ones thread a state through `DriverState`.
 -/
 import DlmsVerif.Run.Crc
+import DlmsVerif.Run.Fields
 
 structure DriverState where
   dummy : Unit := ()
@@ -11,6 +12,7 @@ structure DriverState where
 def step (st : DriverState) (line : String) : DriverState × String :=
   match (line.trimAscii.toString.splitOn " ").filter (· ≠ "") with
   | "crc" :: rest => (st, Run.Crc.handle rest)
+  | "fld" :: rest => (st, Run.Fields.handle rest)
   | [] => (st, "bad-op")
   | _ => (st, "bad-op")
 
